@@ -3,6 +3,7 @@
 
 #include <errno.h>
 #include <fcntl.h>
+#include <signal.h>
 #include <pthread.h>
 #include <stdarg.h>
 #include <stdio.h>
@@ -107,7 +108,13 @@ static char* sb_take(sbuf* b)
 void ys_free(void* p) { free(p); }
 
 /* ------------------------------------------------------------------ init */
-int ys_initialize(void) { return yr_initialize(); }
+int ys_initialize(void)
+{
+  /* the pipe feeder of ys_rules_load_mem keeps writing after a loader that rejected the header has
+     closed its end: that must be an EPIPE for the feeder, not the death of the process */
+  signal(SIGPIPE, SIG_IGN);
+  return yr_initialize();
+}
 int ys_finalize(void) { return yr_finalize(); }
 
 void ys_set_arena_initial_size(size_t n)
